@@ -965,4 +965,128 @@ theorem fixpoint_compact (v : Value) (hw : v.wf = true) (fuel : Nat) (hf : 6 * v
   rwa [Value.norm_norm] at this
 
 
+/-! ## the built-in fuel of `parse` is enough -/
+
+
+/-- Length of the compact text. -/
+abbrev len (l : List Char) : Nat := l.length
+
+theorem ident_length_pos {n : List Char} (h : isIdentifier n = true) : 1 ≤ n.length := by
+  obtain ⟨hl, _⟩ := (quote_decision_agrees n).mp h
+  obtain ⟨c, r, rfl, _, _⟩ := (lexIdent_eq_self_iff n).mp hl
+  simp
+
+theorem Items.length_zero_iff (its : Items) : its.length = 0 ↔ its = .nil := by
+  cases its <;> simp [Items.length]
+
+mutual
+theorem size_le_V (i : Nat) : (v : Value) → v.wf = true → v.size ≤ 2 * (printV .compact i v).length + 1
+  | .extant, _ => by simp [Value.size]
+  | .int k n, _ => by simp [Value.size]
+  | .float f, _ => by simp [Value.size]
+  | .bool b, _ => by simp [Value.size]
+  | .text s, _ => by simp [Value.size]
+  | .data bs, _ => by simp [Value.size]
+  | .record a its, hw => by
+    simp only [Value.wf, Bool.and_eq_true] at hw
+    have ha := size_le_A i a hw.1.1.1
+    have hi := size_le_I i its hw.1.1.2
+    cases a with
+    | nil =>
+      rw [printV_record_nil]
+      simp only [Value.size, Attrs.size, List.length_cons, List.length_append, List.length_nil]
+      omega
+    | cons n v r =>
+      rw [printV_record_cons]
+      simp only [Value.size, List.length_append]
+      by_cases h0 : its.length = 0
+      · have := (Items.length_zero_iff its).mp h0
+        subst this
+        simp [Items.size] at hi ⊢
+        omega
+      · by_cases h1 : its.isSoleVal = true
+        · simp only [h0, ↓reduceIte, h1, List.length_cons]; omega
+        · simp only [h0, ↓reduceIte, h1, Bool.false_eq_true, List.length_cons, List.length_append, List.length_nil]; omega
+theorem size_le_A (i : Nat) : (a : Attrs) → a.wf = true → a.size ≤ 2 * (printAttrs .compact i a).length
+  | .nil, _ => by simp [Attrs.size]
+  | .cons n v r, hw => by
+    simp only [Attrs.wf, Bool.and_eq_true, Bool.not_eq_true'] at hw
+    have hn := ident_length_pos hw.1.1.1
+    have hv := size_le_PA i v hw.1.1.2
+    have hr := size_le_A i r hw.2
+    rw [printAttrs_cons, attrName_ident hw.1.1.1]
+    simp only [Attrs.size, List.length_cons, List.length_append]
+    omega
+theorem size_le_I (i : Nat) : (its : Items) → its.wf = true →
+    its.size ≤ 2 * (printItems .compact i i true true its).length + 2 ∧
+    its.size ≤ 2 * (printItems .compact i i false true its).length
+  | .nil, _ => by simp [Items.size]
+  | .val v r, hw => by
+    simp only [Items.wf, Bool.and_eq_true] at hw
+    have hv := size_le_V i v hw.1
+    have hr := (size_le_I i r hw.2).2
+    simp only [Items.size, printItems, ↓reduceIte, List.nil_append, List.length_append, itemPad_compact,
+      Bool.false_eq_true, List.length_cons, List.length_nil]
+    omega
+  | .slot k v r, hw => by
+    simp only [Items.wf, Bool.and_eq_true, Bool.not_eq_true'] at hw
+    have hk := size_le_V i k hw.1.1.1
+    have hv := size_le_V i v hw.1.2
+    have hr := (size_le_I i r hw.2).2
+    simp only [Items.size, printItems, ↓reduceIte, List.nil_append, List.length_append, itemPad_compact,
+      Bool.false_eq_true, List.length_cons, List.length_nil, pad_compact]
+    omega
+/-- The attribute printer writes at least half a character per unit of size, minus nothing: `size v ≤ 2·len + 1`. -/
+theorem size_le_PA (i : Nat) : (v : Value) → v.wf = true → v.size ≤ 2 * (printA .compact i v).length + 1
+  | .extant, _ => by simp [Value.size]
+  | .int k n, _ => by simp [Value.size]
+  | .float f, _ => by simp [Value.size]
+  | .bool b, _ => by simp [Value.size]
+  | .text s, _ => by simp [Value.size]
+  | .data bs, _ => by simp [Value.size]
+  | .record a its, hw => by
+    simp only [Value.wf, Bool.and_eq_true] at hw
+    have ha := size_le_A i a hw.1.1.1
+    have hi := size_le_I i its hw.1.1.2
+    have hbr := printItems_br i i true false its
+    cases a with
+    | nil =>
+      simp only [printA, Attrs.isEmpty, ↓reduceIte, Value.size, Attrs.size]
+      by_cases h0 : its.length = 0
+      · have := (Items.length_zero_iff its).mp h0
+        subst this
+        simp [Items.size, Items.length]
+      · by_cases h1 : its.isSoleVal = true
+        · simp only [h0, ↓reduceIte, h1, List.length_cons, List.length_append, startBlock_compact, inner_compact,
+            endBlock_compact, List.length_nil]
+          have : ("})".toList).length = 2 := by decide
+          omega
+        · simp only [h0, ↓reduceIte, h1, Bool.false_eq_true, List.length_cons, List.length_append, List.length_nil, hbr]; omega
+    | cons n v r =>
+      simp only [printA, Attrs.isEmpty, Bool.false_eq_true, ↓reduceIte, Value.size, List.length_cons,
+        List.length_append, List.length_nil]
+      by_cases h0 : its.length = 0
+      · have := (Items.length_zero_iff its).mp h0
+        subst this
+        simp [Items.size, Items.length] at hi ⊢
+        omega
+      · by_cases h1 : (its.isSoleVal || its.isSoleSlot) = true
+        · simp only [h0, ↓reduceIte, h1, List.length_cons, hbr]; omega
+        · simp only [h0, ↓reduceIte, h1, Bool.false_eq_true, List.length_cons, List.length_append, List.length_nil,
+            pad_compact, startBlock_compact, inner_compact, endBlock_compact]; omega
+end
+
+
+/-- **parse ∘ print (compact)** for `parse` itself. -/
+theorem parse_print_compact (v : Value) (hw : v.wf = true) : parse (print .compact v) = .ok v.norm := by
+  unfold parse
+  apply parseFuel_print_compact v hw
+  have := size_le_V 0 v hw
+  unfold print
+  omega
+
+theorem parse_fixpoint_compact (v : Value) (hw : v.wf = true) : parse (print .compact v.norm) = .ok v.norm := by
+  have := parse_print_compact v.norm (by rw [Value.wf_norm]; exact hw)
+  rwa [Value.norm_norm] at this
+
 end SwimVerif.Recon
